@@ -4,6 +4,7 @@ package props
 
 import (
 	"fmt"
+	"math/rand/v2"
 	"sync"
 
 	"github.com/creachadair/mds/queue"
@@ -27,7 +28,7 @@ func init() {
 					"and at 262143..1.2 M elements (5 M thorough), one per block; (b) exhaustive enumeration of all histories up to a length bound over {Add,Push,Pop,PopLast} for preallocated sizes 0..4, " +
 					"(c) PRNG histories of 20..300 ops with phase-switching op mixes, (d) long-lived queues: one instance carries 300 000 (1.2 M thorough) operations with its length wandering between 0 and a few hundred. After EVERY op: Each with read-only calls (Slice, Peek, Front, Len, Each) made from inside its loop body - before the monitor reads anything else -, Len, IsEmpty, Front, Slice (and scribbling over the returned slice), Each (with early stop), Peek(n) for all n in [-Len-2, Len+1] and for offsets far out of range whose low 8..62 bits look like a valid offset. " +
 					"distinct = distinct (constructor, history) hashes; non-trivial = the history contained at least one wrap of the ring indices or a regrow while head > 0 (seen through the VerifState hook)",
-				Required:     []string{"rotate_then_grow_add", "rotate_then_grow_push", "backward_wrap_push", "forward_wrap_add", "pop_to_empty", "steps", "large_capacity_scenarios", "element_type_checks", "sparse_observation_histories", "concurrent_instance_histories", "long_lived_queue_runs", "very_large_queues"},
+				Required:     []string{"rotate_then_grow_add", "rotate_then_grow_push", "backward_wrap_push", "forward_wrap_add", "pop_to_empty", "steps", "large_capacity_scenarios", "element_type_checks", "sparse_observation_histories", "concurrent_instance_histories", "long_lived_queue_runs", "very_large_queues", "shared_reader_rounds"},
 				Exhaustive:   true,
 				Assumptions:  []string{"reference model: Go slice with append/prepend/pop semantics", "hook queue.VerifState used for reach counters only, never for verdicts"},
 				CoverPkgs:    []string{"github.com/creachadair/mds/queue", "github.com/creachadair/mds/slice"},
@@ -77,6 +78,38 @@ func c07runMode(c *fw.Ctx, ctorSize int, ops []c07op, light, sparse bool) (nontr
 		q = queue.NewSize[int](ctorSize)
 		ctor = fmt.Sprintf("NewSize(%d)", ctorSize)
 	}
+	// variants chosen by the history itself (deterministic): observations through
+	// method values bound at construction, and a Queue struct that is moved by
+	// value (right away, or after a few operations) with only the copy used
+	bound := len(ops)%5 == 2
+	moved := []int{0, 0, 0, 1, 0, 2, 0}[len(ops)%7]
+	if moved == 1 {
+		cp := *q
+		q = &cp
+		ctor += ", struct moved by value"
+	}
+	if bound {
+		ctor += ", observed through method values bound at construction"
+	}
+	var accLen func() int
+	var accIsEmpty func() bool
+	var accFront func() int
+	var accPeek func(int) (int, bool)
+	var accSlice func() []int
+	var accEach func(func(int) bool)
+	bind := func() {
+		if bound {
+			accLen, accIsEmpty, accFront, accPeek, accSlice, accEach = q.Len, q.IsEmpty, q.Front, q.Peek, q.Slice, q.Each
+			return
+		}
+		accLen = func() int { return q.Len() }
+		accIsEmpty = func() bool { return q.IsEmpty() }
+		accFront = func() int { return q.Front() }
+		accPeek = func(i int) (int, bool) { return q.Peek(i) }
+		accSlice = func() []int { return q.Slice() }
+		accEach = func(f func(int) bool) { q.Each(f) }
+	}
+	bind()
 	var ref []int
 	next := 1
 	log := make([]string, 0, len(ops))
@@ -97,17 +130,17 @@ func c07runMode(c *fw.Ctx, ctorSize int, ops []c07op, light, sparse bool) (nontr
 		if light && !grew && len(log)%509 != 0 {
 			// light mode (large scripted scenarios): constant-time observations on
 			// every step, the full comparison after every regrow and every 509 steps
-			if q.Len() != len(ref) || q.IsEmpty() != (len(ref) == 0) {
-				fail("Len=%d IsEmpty=%v want %d elements", q.Len(), q.IsEmpty(), len(ref))
+			if accLen() != len(ref) || accIsEmpty() != (len(ref) == 0) {
+				fail("Len=%d IsEmpty=%v want %d elements", accLen(), accIsEmpty(), len(ref))
 				return false
 			}
 			if len(ref) > 0 {
 				mid := len(log) % len(ref)
-				f, _ := q.Peek(0)
-				l, _ := q.Peek(-1)
-				m, mok := q.Peek(mid)
-				if q.Front() != ref[0] || f != ref[0] || l != ref[len(ref)-1] || !mok || m != ref[mid] {
-					fail("Front=%d Peek(0)=%d Peek(-1)=%d Peek(%d)=%d, want %d %d %d %d", q.Front(), f, l, mid, m, ref[0], ref[0], ref[len(ref)-1], ref[mid])
+				f, _ := accPeek(0)
+				l, _ := accPeek(-1)
+				m, mok := accPeek(mid)
+				if accFront() != ref[0] || f != ref[0] || l != ref[len(ref)-1] || !mok || m != ref[mid] {
+					fail("Front=%d Peek(0)=%d Peek(-1)=%d Peek(%d)=%d, want %d %d %d %d", accFront(), f, l, mid, m, ref[0], ref[0], ref[len(ref)-1], ref[mid])
 					return false
 				}
 			}
@@ -120,21 +153,21 @@ func c07runMode(c *fw.Ctx, ctorSize int, ops []c07op, light, sparse bool) (nontr
 			// have done so already)
 			var nested []int
 			inner := true
-			q.Each(func(v int) bool {
+			accEach(func(v int) bool {
 				nested = append(nested, v)
 				i := len(nested) - 1
 				if i >= len(ref) {
 					return false
 				}
-				if sl := q.Slice(); !equalInts(sl, ref) {
+				if sl := accSlice(); !equalInts(sl, ref) {
 					inner = false
 				}
-				if pv, ok := q.Peek(i); !ok || pv != ref[i] || q.Front() != ref[0] || q.Len() != len(ref) {
+				if pv, ok := accPeek(i); !ok || pv != ref[i] || accFront() != ref[0] || accLen() != len(ref) {
 					inner = false
 				}
 				if i == len(ref)/2 {
 					n := 0
-					q.Each(func(int) bool { n++; return n <= len(ref) })
+					accEach(func(int) bool { n++; return n <= len(ref) })
 					if n != len(ref) {
 						inner = false
 					}
@@ -146,11 +179,11 @@ func c07runMode(c *fw.Ctx, ctorSize int, ops []c07op, light, sparse bool) (nontr
 				return false
 			}
 		}
-		if got := q.Len(); got != len(ref) {
+		if got := accLen(); got != len(ref) {
 			fail("Len=%d want %d", got, len(ref))
 			return false
 		}
-		if got := q.IsEmpty(); got != (len(ref) == 0) {
+		if got := accIsEmpty(); got != (len(ref) == 0) {
 			fail("IsEmpty=%v with %d elements", got, len(ref))
 			return false
 		}
@@ -158,11 +191,11 @@ func c07runMode(c *fw.Ctx, ctorSize int, ops []c07op, light, sparse bool) (nontr
 		if len(ref) > 0 {
 			wantFront = ref[0]
 		}
-		if got := q.Front(); got != wantFront {
+		if got := accFront(); got != wantFront {
 			fail("Front=%d want %d (ref %v)", got, wantFront, ref)
 			return false
 		}
-		sl := q.Slice()
+		sl := accSlice()
 		if !equalInts(sl, ref) {
 			fail("Slice=%v want %v", sl, ref)
 			return false
@@ -182,7 +215,7 @@ func c07runMode(c *fw.Ctx, ctorSize int, ops []c07op, light, sparse bool) (nontr
 			// a scan abandoned half-way: the loop body panics, the caller recovers
 			fw.Panics(func() {
 				n := 0
-				q.Each(func(int) bool {
+				accEach(func(int) bool {
 					if n++; n > len(ref)/2 {
 						panic("scan abandoned by its loop body")
 					}
@@ -191,7 +224,7 @@ func c07runMode(c *fw.Ctx, ctorSize int, ops []c07op, light, sparse bool) (nontr
 			})
 		}
 		var each []int
-		q.Each(func(v int) bool { each = append(each, v); return true })
+		accEach(func(v int) bool { each = append(each, v); return true })
 		if !equalInts(each, ref) {
 			fail("Each=%v want %v", each, ref)
 			return false
@@ -199,14 +232,14 @@ func c07runMode(c *fw.Ctx, ctorSize int, ops []c07op, light, sparse bool) (nontr
 		if len(ref) > 0 {
 			stop := len(log) % len(ref) // deterministic early-stop point
 			n := 0
-			q.Each(func(v int) bool { n++; return n <= stop })
+			accEach(func(v int) bool { n++; return n <= stop })
 			if n != stop+1 {
 				fail("Each made %d calls after yield returned false at call %d", n, stop+1)
 				return false
 			}
 		}
 		for n := -len(ref) - 2; n <= len(ref)+1; n++ {
-			got, gok := q.Peek(n)
+			got, gok := accPeek(n)
 			idx := n
 			if idx < 0 {
 				idx += len(ref)
@@ -224,7 +257,7 @@ func c07runMode(c *fw.Ctx, ctorSize int, ops []c07op, light, sparse bool) (nontr
 		if len(log)%7 == 3 {
 			// offsets far out of range whose low bits look like a valid offset
 			for _, n := range truncInts(len(ref)) {
-				if got, gok := q.Peek(n); gok || got != 0 {
+				if got, gok := accPeek(n); gok || got != 0 {
 					fail("Peek(%d)=(%d,%v) want (0,false): the offset is far out of range (Len %d)", n, got, gok, len(ref))
 					return false
 				}
@@ -235,7 +268,12 @@ func c07runMode(c *fw.Ctx, ctorSize int, ops []c07op, light, sparse bool) (nontr
 	if !check() {
 		return false, false
 	}
-	for _, op := range ops {
+	for opi, op := range ops {
+		if moved == 2 && opi == 9 {
+			cp := *q // moved by value after some use; only the copy is used from here on
+			q = &cp
+			bind()
+		}
 		head, n, capy := q.VerifState()
 		full := n == capy
 		switch op {
@@ -346,6 +384,62 @@ func c07hash(ctor int, ops []c07op) uint64 {
 // c07concurrent: separate queues used by separate goroutines at the same time
 // (instances share nothing, so each must behave exactly as it does alone).
 func c07concurrent(c *fw.Ctx, base int) {
+	// one shared queue (wrapped ring), no writer, eight goroutines that only read it
+	for k := 0; k < c.Pick(3, 20); k++ {
+		if !c.Begin(base + 100000 + k) {
+			continue
+		}
+		r := c.Rng()
+		n := 1 + r.IntN(60)
+		q := queue.NewSize[int](n + r.IntN(4))
+		var ref []int
+		for i := 0; i < n+n/2; i++ { // wrap the ring: fill, pop half, refill
+			if i == n {
+				for j := 0; j < n/2; j++ {
+					q.Pop()
+					ref = ref[1:]
+				}
+			}
+			q.Add(i)
+			ref = append(ref, i)
+		}
+		msg := concurrently(8, r.Uint64(), func(g int, lr *rand.Rand) string {
+			for it := 0; it < 300; it++ {
+				switch lr.IntN(4) {
+				case 0:
+					if !equalInts(q.Slice(), ref) {
+						return fmt.Sprintf("goroutine %d (readers only): Slice=%v want %v", g, q.Slice(), ref)
+					}
+				case 1:
+					var each []int
+					q.Each(func(v int) bool { each = append(each, v); return len(each) <= len(ref) })
+					if !equalInts(each, ref) {
+						return fmt.Sprintf("goroutine %d (readers only): Each=%v want %v", g, each, ref)
+					}
+				case 2:
+					i := lr.IntN(len(ref))
+					if v, ok := q.Peek(i); !ok || v != ref[i] {
+						return fmt.Sprintf("goroutine %d (readers only): Peek(%d)=(%d,%v) want %d", g, i, v, ok, ref[i])
+					}
+				default:
+					if q.Len() != len(ref) || q.IsEmpty() || q.Front() != ref[0] {
+						return fmt.Sprintf("goroutine %d (readers only): Len=%d Front=%d want %d, %d", g, q.Len(), q.Front(), len(ref), ref[0])
+					}
+				}
+				c.Step()
+			}
+			return ""
+		})
+		if msg != "" {
+			c.Fail(map[string]any{"phase": "one shared queue, no writer, 8 goroutines that only read it", "elements": len(ref)}, "%s", msg)
+		}
+		// afterwards the owner goes on using it
+		q.Add(-1)
+		if v, ok := q.PopLast(); !ok || v != -1 || q.Len() != len(ref) {
+			c.Fail(map[string]any{"phase": "owner uses the queue after the concurrent readers have finished"}, "PopLast=(%d,%v) Len=%d", v, ok, q.Len())
+		}
+		c.Add("shared_reader_rounds", 1)
+	}
 	for k := 0; k < c.Pick(3, 30); k++ {
 		var wg sync.WaitGroup
 		for g := 0; g < 8; g++ {
